@@ -56,6 +56,7 @@ func runC03(c *Config, r *Report) {
 	c12R32(ic, r, "R03.22")
 	c03R23(ic, r)
 	c03R24(ic, r)
+	c03R25(ic, r, "R03.25")
 	c03R2(ic, r)
 	c03R3(ic, r)
 	c03R4(ic, r)
